@@ -77,6 +77,9 @@ theorem evalS_noassign : ∀ (n : Nat) (s : Stmt) (σ : Store) (st : State), ass
       simp only [evalS] at h
       refine lift _ _ ?_ st c st' h
       clear h
+      intro a0 st0 c st' h
+      refine lift _ _ ?_ st0 c st' h
+      clear h
       intro a st1 c st' h
       split at h
       · exact ih t σ st1 hna.1 c st' h
@@ -101,6 +104,9 @@ theorem evalS_noassign : ∀ (n : Nat) (s : Stmt) (σ : Store) (st : State), ass
       simp only [assignsLocals] at hna
       simp only [evalS] at h
       refine lift _ _ ?_ st c st' h
+      clear h
+      intro a0 st0 c st' h
+      refine lift _ _ ?_ st0 c st' h
       clear h
       intro a st1 c st' h
       split at h
@@ -195,7 +201,7 @@ def WhileSpec (P : Prog) (C : Ctx) (L L' : Env) (rc : ERes) (rb : SRes) : State 
     | _ => False
 
 /-- the loop itself, from the checker's fixpoint frame `L`: by induction on the fuel -/
-theorem while_ok (w : WF P) {n : Nat} (ihe : ∀ m, m ≤ n → ExprOK P tm m) (ihs : ∀ m, m ≤ n → StmtOK P tm m)
+theorem while_ok (t : Typed P tm) (w : WF P) {n : Nat} (ihe : ∀ m, m ≤ n → ExprOK P tm m) (ihs : ∀ m, m ≤ n → StmtOK P tm m)
     {k : Nat} {C : Ctx} (hP : C.P = P) {c : Expr} {b : Stmt} {L L' : Env} {rc : ERes} {rb : SRes}
     {m1 m2 : Option Env × Bool}
     (hrc : tcE k C L false true c = .ok rc)
@@ -215,11 +221,15 @@ theorem while_ok (w : WF P) {n : Nat} (ihe : ∀ m, m ≤ n → ExprOK P tm m) (
     simp only [evalS]
     refine sat_liftE (ihe m hmn k C L false true c rc σ st hP hrc (fun x hx => hrecs x (List.mem_append_left _ hx)) hst) ?_
       (fun st1 e e1 hb => ⟨hb, L, by simp, hst.ext e1⟩)
-    intro st1 v e1 hv
-    cases htv : truthy v with
+    intro st0 v e0 hv
+    refine sat_liftE (sat_truthOf t (ihs m hmn) hv.1) ?_
+      (fun st1 e e01 hb => ⟨hb, L, by simp, (hst.ext e0).ext e01⟩)
+    intro st1 tv e01 htv
+    have e1 := e0.trans e01
+    cases tv with
     | true =>
       simp only [if_true]
-      obtain ⟨Γt, hΓt, hstt⟩ := (hv.2.1 htv).push false (hst.ext e1)
+      obtain ⟨Γt, hΓt, hstt⟩ := ((hv.2.1 htv).ext e01).push false (hst.ext e1)
       rw [hΓt] at hrb
       refine sat_bind (ihs m hmn k C Γt b rb σ st1 hP hrb (fun x hx => hrecs x (List.mem_append_right _ hx)) hstt) ?_
       intro st2 ctl e2 hctl
@@ -248,7 +258,7 @@ theorem while_ok (w : WF P) {n : Nat} (ihe : ∀ m, m ≤ n → ExprOK P tm m) (
       apply sat_pure
       obtain ⟨Γ2, hΓ2, hst2⟩ := mergeEnvs_sound w hm2 (b := L) (by simp) (hst.ext e1)
       rw [hL'] at hΓ2; cases hΓ2
-      obtain ⟨Γe, hΓe, hste⟩ := (hv.2.2 htv).push true hst2
+      obtain ⟨Γe, hΓe, hste⟩ := ((hv.2.2 htv).ext e01).push true hst2
       exact Or.inl ⟨Γe, hΓe, hste⟩
 
 theorem envsLe_sound {P : Prog} (w : WF P) {decl : List Ty} {l : List Env} {H Γ : Env} (hl : envsLe P decl l H = true)
@@ -619,11 +629,15 @@ theorem stmt_step (t : Typed P tm) {n : Nat} (ih : ∀ m, m ≤ n → EvalOK P t
     refine sat_liftE (ihn.expr k C Γ false true c rc σ st rfl hrc
       (fun x hx => hrecs x (List.mem_append_left _ hx)) hst) ?_
       (fun st1 e e1 hb => ⟨hb, Γ, by simp, hst.ext e1⟩)
-    intro st1 v e1 hv
-    cases htv : truthy v with
+    intro st0 v e0 hv
+    refine sat_liftE (sat_truthOf t ihn.stmt hv.1) ?_
+      (fun st1 e e01 hb => ⟨hb, Γ, by simp, (hst.ext e0).ext e01⟩)
+    intro st1 tv e01 htv
+    have e1 := e0.trans e01
+    cases tv with
     | true =>
       simp only [if_true]
-      obtain ⟨Γt, hΓt, hstt⟩ := (hv.2.1 htv).push false (hst.ext e1)
+      obtain ⟨Γt, hΓt, hstt⟩ := ((hv.2.1 htv).ext e01).push false (hst.ext e1)
       rw [hΓt] at hrt
       refine sat_mono (ihn.stmt k C Γt tb rt σ st1 rfl hrt
         (fun x hx => hrecs x (List.mem_append_right _ (List.mem_append_left _ hx))) hstt) ?_
@@ -640,7 +654,7 @@ theorem stmt_step (t : Typed P tm) {n : Nat} (ih : ∀ m, m ≤ n → EvalOK P t
       | cont σ' => obtain ⟨Γb, hΓb, hstb⟩ := hctl; exact ⟨Γb, List.mem_append_left _ hΓb, hstb⟩
     | false =>
       simp only [Bool.false_eq_true, if_false]
-      obtain ⟨Γe, hΓe, hste⟩ := (hv.2.2 htv).push false (hst.ext e1)
+      obtain ⟨Γe, hΓe, hste⟩ := ((hv.2.2 htv).ext e01).push false (hst.ext e1)
       rw [hΓe] at hre
       refine sat_mono (ihn.stmt k C Γe eb re σ st1 rfl hre
         (fun x hx => hrecs x (List.mem_append_right _ (List.mem_append_right _ hx))) hste) ?_
@@ -688,7 +702,7 @@ theorem stmt_step (t : Typed P tm) {n : Nat} (ih : ∀ m, m ≤ n → EvalOK P t
     | some L' =>
       rw [hL'] at hp; simp only [pure_ok] at hp; subst hp
       simp only at hle hm hrecs
-      have hloop := while_ok w (fun m hm => (ih m hm).expr) (fun m hm => (ih m hm).stmt) rfl hrc hrb hm1 hm2 hL' hle
+      have hloop := while_ok t w (fun m hm => (ih m hm).expr) (fun m hm => (ih m hm).stmt) rfl hrc hrb hm1 hm2 hL' hle
         hrecs (n + 1) (Nat.le_refl _) σ st (hreach st.heap σ hst)
       refine sat_mono hloop ?_
       intro st2 ctl _ hctl
